@@ -187,6 +187,10 @@ class Emitter:
             for k, v in tab.items():
                 if isinstance(op, k):
                     return v
+        if self.backend == "Z" and isinstance(node, (ast.BinOp, ast.Name)):
+            # truth value of a Python int: non-zero (`if a % 2 or b % 2:`); the bridge lemma still has to prove the
+            # resulting boolean equal to the model's for all arguments
+            return "(negb (%s =? 0))" % self.expr(node)
         raise TranslateError("condition %s not in the accepted syntax" % ast.unparse(node))
 
     def expr(self, node):
@@ -429,7 +433,8 @@ def translate(path, slices, backend, consts=None, **km):
         return _km_translate(path, slices, backend, consts, **km)
     # --- end KM additions
     src = open(path).read()
-    tree = ast.parse(src)
+    import astnorm
+    tree = astnorm.parse_file(path)  # dict(k=v) = {'k': v}; NEW single-use temporaries are substituted forward (harness/astnorm.py)
     _annotate_float_text(tree, src)
     defs = []
     for sl in slices:
@@ -656,7 +661,8 @@ def _km_translate(path, slices, backend, consts=None, ssa=True, helpers=None, se
     if backend != "R":
         raise TranslateError("KM options need the R backend")
     src = open(path).read()
-    tree = ast.parse(src)
+    import astnorm
+    tree = astnorm.parse_file(path)  # see translate()
     _annotate_float_text(tree, src)
     helpers = dict(helpers or {})
     arity = {}
